@@ -20,6 +20,7 @@ class Facts:
             p = f.get("parent")
             if p:
                 self.children.setdefault(p, []).append(f["id"])
+        self.field_renames = canonicalise_fields(self)
 
     # ------------------------------------------------------------------ lookup
     def fn(self, fid):
@@ -45,6 +46,77 @@ class Facts:
         while f.get("parent") in self.fns:
             f = self.fns[f["parent"]]
         return f["id"]
+
+
+_LAYOUT = None
+
+
+def _layout():
+    global _LAYOUT
+    if _LAYOUT is None:
+        p = os.path.join(os.path.dirname(os.path.dirname(os.path.abspath(__file__))), "adt_layout.json")
+        _LAYOUT = json.load(open(p))["layout"] if os.path.exists(p) else {}
+    return _LAYOUT
+
+
+def canonicalise_fields(fx):
+    """Private fields may be renamed without any behavioural change.  The rules name fields (NodeState.max_version, ...); to
+    keep them independent of such renames, struct fields of the crate are mapped back to the names of the pinned tree's
+    layout (rules/adt_layout.json): same name -> itself; otherwise same position and same type (when the struct has the same
+    number of fields) or, failing that, the unique field of that type.  Fields that cannot be mapped keep their name (a rule
+    that needs them then loses its anchor and fails closed).  Returns {adt: {current: canonical}} for the evidence."""
+    ref = _layout()
+    renames = {}
+    for path, a in fx.adts.items():
+        want = ref.get(path)
+        if not want or a.get("kind") != "Struct" or not a["variants"]:
+            continue
+        cur = a["variants"][0]["fields"]
+        cur_names = [f["name"] for f in cur]
+        want_names = [w[0] for w in want]
+        if set(cur_names) == set(want_names):
+            continue
+        m = {}
+        missing = [w for w in want if w[0] not in cur_names]
+        extra = [f for f in cur if f["name"] not in want_names]
+        if len(cur) == len(want):
+            for f, w in zip(cur, want):
+                if f["name"] != w[0] and f["ty"] == w[1] and w[0] not in cur_names and f["name"] not in want_names:
+                    m[f["name"]] = w[0]
+        for w in missing:
+            if w[0] in m.values():
+                continue
+            cands = [f for f in extra if f["ty"] == w[1] and f["name"] not in m]
+            same_ty_missing = [x for x in missing if x[1] == w[1] and x[0] not in m.values()]
+            if len(cands) == 1 and len(same_ty_missing) == 1:
+                m[cands[0]["name"]] = w[0]
+        if m:
+            renames[path] = m
+    if not renames:
+        return {}
+
+    def fix_place(pl):
+        for e in pl.get("proj", []):
+            if e.get("k") == "field" and e.get("adt") in renames and e.get("name") in renames[e["adt"]]:
+                e["name"] = renames[e["adt"]][e["name"]]
+
+    def walk(o):
+        if isinstance(o, dict):
+            if "proj" in o and "local" in o:
+                fix_place(o)
+            if o.get("k") == "aggregate" and o.get("adt") in renames and isinstance(o.get("fields"), list):
+                o["fields"] = [renames[o["adt"]].get(n, n) for n in o["fields"]]
+            for v in o.values():
+                walk(v)
+        elif isinstance(o, list):
+            for v in o:
+                walk(v)
+    for path, m in renames.items():
+        for f in fx.adts[path]["variants"][0]["fields"]:
+            f["name"] = m.get(f["name"], f["name"])
+    for f in fx.fns.values():
+        walk(f.get("blocks") or [])
+    return renames
 
 
 def load_dir(d):
